@@ -402,3 +402,16 @@ def parse_sim_trace(path):
             name, args = parse_action_label(lbl)
         out.append((name, args, parse_state(m.group(2))))
     return out
+
+
+def parse_dump(path):
+    """states written by `-dump <file>` (TLC appends .dump): list of state dicts"""
+    if not os.path.exists(path) and os.path.exists(path + ".dump"):
+        path = path + ".dump"
+    txt = open(path).read()
+    out = []
+    for blk in re.split(r"^State \d+:\s*$", txt, flags=re.M):
+        blk = blk.strip()
+        if blk:
+            out.append(parse_state(blk))
+    return out
